@@ -81,24 +81,112 @@ let run_c12 toks obs =
       Printf.sprintf "PROPFAIL %s sig=late-write%s the result buffer of a call changed after the call had returned" id (fam k)
     else timeouts_or_agree id k evs)
 
+(* C20: the sizes a record may carry are computed here from the raw frames of the event log:
+   F(n)  = bytes of the frame written for operation n;  L(q) = content length of the peer's response with seqno q;
+   Lreq(n) = content length of the peer's request with nonce n;  Freply(q) = bytes of the response written with seqno q *)
+let run_c20_inst toks obs =
+  match toks with
+  | "inst" :: id :: rest ->
+      let k = parse_kv rest in
+      (match Hashtbl.find_opt obs id with
+       | None -> Printf.sprintf "MISMATCH %s no-observation" id
+       | Some ot ->
+           let okv = parse_kv (List.tl (List.tl ot)) in
+           if kv "res" okv = "panic" then Printf.sprintf "PROPFAIL %s sig=panic instrumenter panicked" id else
+           let zi s = Values.z_to_coq (ZZ.of_string s) in
+           let ops = List.map (fun o -> match o.[0] with
+             | 'i' -> IIncrement (zi (String.sub o 1 (String.length o - 1)))
+             | 'f' -> IFinish
+             | _ -> IRecordAndFinish (zi (String.sub o 1 (String.length o - 1)))) (List.filter (fun o -> o <> "-" && o <> "") (split_on ',' (kv "ops" k))) in
+           let (_, puts) = irun inst0 ops in
+           (* refusals, step by step *)
+           let rec refs s = function
+             | [] -> []
+             | o :: r -> let ((s1, _), refused) = istep s o in
+                         (match o with IIncrement _ -> refs s1 r | _ -> (if refused then "1" else "0") :: refs s1 r) in
+           let mputs = String.concat "," (List.map (fun z -> ZZ.to_string (Values.z_of_coq z)) puts) in
+           let mref = String.concat "," (refs inst0 ops) in
+           if List.length (split_on ',' (kv "puts" okv)) > 1 then
+             Printf.sprintf "PROPFAIL %s sig=record-duplicated one instrumenter stored %s records" id (kv "puts" okv)
+           else if mputs <> kv "puts" okv || mref <> kv "refused" okv then
+             Printf.sprintf "MISMATCH %s instrumenter: model puts=[%s] refused=[%s] impl puts=[%s] refused=[%s]" id mputs mref (kv "puts" okv) (kv "refused" okv)
+           else Printf.sprintf "AGREE %s %s" id (if List.length ops >= 2 then "nontrivial" else "trivial"))
+  | _ -> "SKIP"
+
 let run_c20 toks obs =
+  match toks with
+  | "inst" :: _ -> run_c20_inst toks obs
+  | _ ->
   C13.with_trace toks obs (fun id k evs tr ->
-    (* wants=<kind>~<nonce>~<size>+<size>,... *)
+    let max = Values.z_to_coq (ZZ.of_string (let m = kv "max" k in if m = "" then "1048576" else m)) in
+    let infl = C02.inflated_of evs in
+    let zs z = ZZ.to_string (Values.z_of_coq z) in
+    let written = List.filter_map (fun e -> match String.split_on_char '/' e with
+      | [ "write"; h ] -> let fi = Abstract.frame_info_of max infl (bytes_of_hex h) in Some (fi, String.length h / 2)
+      | _ -> None) evs in
+    let fed = List.concat_map (fun e -> match String.split_on_char '/' e with
+      | [ "feed"; h ] ->
+          (* content lengths of the frames inside the fed bytes *)
+          let rec split (bs : n list) acc =
+            if bs = [] then List.rev acc else
+            match dec_int32 bs with
+            | I32 (l, rest) when ZZ.gt (Values.z_of_coq l) ZZ.zero && ZZ.to_int (Values.z_of_coq l) <= List.length rest ->
+                let li = ZZ.to_int (Values.z_of_coq l) in
+                let plen = List.length bs - List.length rest in
+                let rec take n l = if n = 0 then [] else match l with [] -> [] | x :: t -> x :: take (n - 1) t in
+                let rec drop n l = if n = 0 then l else match l with [] -> [] | _ :: t -> drop (n - 1) t in
+                split (drop li rest) ((Abstract.frame_info_of max infl (take (plen + li) bs), li) :: acc)
+            | _ -> List.rev acc in
+          split (bytes_of_hex (if h = "-" then "" else h)) []
+      | _ -> []) evs in
+    let f_of kind nn = List.filter_map (fun (fi, len) -> if fkind_eqb fi.fi_kind kind && zs fi.fi_nonce = nn then Some (len, zs fi.fi_seq) else None) written in
     let kind_of = function "call" -> KCall | "callc" -> KCallC | "resp" -> KResp | "notify" -> KNotify | "cancel" -> KCancel | _ -> KBad in
-    let wants = List.filter_map (fun w ->
+    (* wants=<kind>~<nonce>~<mode>  mode: plain | withreply | either | cancelof | served *)
+    let problems = List.filter_map (fun w ->
       match String.split_on_char '~' w with
-      | [ kd; nn; sizes ] ->
-          Some ((kind_of kd, Values.z_to_coq (ZZ.of_string nn)), List.map (fun s -> Values.z_to_coq (ZZ.of_string s)) (String.split_on_char '+' sizes))
+      | [ kd; nn; mode ] ->
+          let kind = kind_of kd in
+          let nz = Values.z_to_coq (ZZ.of_string nn) in
+          let sizes =
+            (match mode with
+             | "cancelof" ->
+                 (* the cancel frame of call nn: found through the call's seqno *)
+                 (match f_of KCall nn @ f_of KCallC nn with
+                  | (_, q) :: _ -> List.filter_map (fun (fi, len) -> if fi.fi_kind = KCancel && zs fi.fi_seq = q then Some [ len ] else None) written
+                  | [] -> [])
+             | "served" ->
+                 (match List.filter (fun (fi, _) -> zs fi.fi_nonce = nn && (fi.fi_kind = KCall || fi.fi_kind = KCallC)) fed with
+                  | (fi, lreq) :: _ ->
+                      List.filter_map (fun (wf, len) -> if wf.fi_kind = KResp && zs wf.fi_seq = zs fi.fi_seq then Some [ lreq + len ] else None) written
+                  | [] -> [])
+             | _ ->
+                 (match f_of kind nn with
+                  | (f, q) :: _ ->
+                      let lr = List.filter_map (fun (fi, l) -> if fi.fi_kind = KResp && zs fi.fi_seq = q then Some l else None) fed in
+                      (match mode, lr with
+                       | "plain", _ -> [ [ f ] ]
+                       | "withreply", l :: _ -> [ [ f + l ] ]
+                       | "either", l :: _ -> [ [ f; f + l ] ]
+                       | "either", [] -> [ [ f ] ]
+                       | _ -> [])
+                  | [] -> [])) in
+          (match sizes with
+           | [] -> None                      (* its frame was not written: the property does not fix the size *)
+           | allowed :: _ ->
+               let want = ((kind, nz), List.map (fun x -> Values.z_to_coq (ZZ.of_int x)) allowed) in
+               if c20_one tr want then None
+               else
+                 let got = records_of kind nz tr in
+                 Some (Printf.sprintf "sig=%s%s operation %s (%s): expected exactly one record with size in {%s}, got sizes [%s]"
+                         (if List.length got = 1 then "record-size" else if got = [] then "record-missing" else "record-duplicated") (fam k)
+                         nn kd (String.concat "," (List.map string_of_int allowed)) (String.concat "," (List.map zs got))))
       | _ -> None) (split_on ',' (kv "wants" k)) in
-    let bad = List.filter (fun w -> not (c20_one tr w)) wants in
-    match bad with
-    | ((kd, nn), sizes) :: _ ->
-        let got = records_of kd nn tr in
-        Printf.sprintf "PROPFAIL %s sig=%s%s operation %s: expected exactly one record with size in {%s}, got sizes [%s]" id
-          (if List.length got = 1 then "record-size" else if got = [] then "record-missing" else "record-duplicated") (fam k)
-          (ZZ.to_string (Values.z_of_coq nn)) (String.concat "," (List.map (fun s -> ZZ.to_string (Values.z_of_coq s)) sizes))
-          (String.concat "," (List.map (fun s -> ZZ.to_string (Values.z_of_coq s)) got))
-    | [] -> timeouts_or_agree id k evs)
+    (* every record carries a tag made of a known message type and a method *)
+    let bad_tag = List.exists (function ARecord (KBad, _, _) -> true | _ -> false) tr in
+    match problems with
+    | p :: _ -> Printf.sprintf "PROPFAIL %s %s" id p
+    | [] -> if bad_tag then Printf.sprintf "PROPFAIL %s sig=record-tag%s a record was stored under a tag that is not <message type> <method>" id (fam k)
+            else timeouts_or_agree id k evs)
 
 let debug_abstract toks obs =
   C13.with_trace toks obs (fun id k evs tr ->
